@@ -397,6 +397,15 @@ func (e *ControllerEngine) StartWatches(name string, ws ...Watch) error {
 	c.mx.Lock()
 	defer c.mx.Unlock()
 
+	// Another Goroutine may have started informers since we took our snapshot,
+	// so take it again now that we hold the write lock. Otherwise two concurrent
+	// calls could both start a source for the same watch, leaking the first.
+	a = e.infs.ActiveInformers()
+	activeInformer = make(map[schema.GroupVersionKind]bool, len(a))
+	for _, gvk := range a {
+		activeInformer[gvk] = true
+	}
+
 	// Start new sources.
 	for i, w := range ws {
 		wid := WatchID{Type: w.wt, GVK: gvks[i]}
